@@ -208,6 +208,28 @@ def run(ctx, report):
             if badpos:
                 i = badpos[0]
                 r_reach.finding(f"{cid}.bank_code", f"bank code {code!r}: character {code[i]!r} at index {i} is not of class {field[i]!r}; no valid {cc} IBAN contains it", where)
+    # ------------------------------------------------------------------ R17-cover: no BBAN position is orphaned
+    # Every position of a BBAN belongs to a component - except the reserved positions of the two countries whose structure has them
+    # (confirmed by reading the table of the pinned tree: TR position 6, MU positions 21-23, 1-based).  A range edited to be one short
+    # stays inside the BBAN and overlaps nothing, but leaves a position that no accessor returns and generation fills with '0'.
+    RESERVED = {"TR": [5], "MU": [20, 21, 22]}
+    r_cover = report.rule("R17-cover", floor=100, what="the component ranges of a country cover its BBAN (frozen exceptions: reserved positions of TR and MU)")
+    for cc in sorted(reg.countries):
+        pos = reg.positions(cc)
+        n = reg.countries[cc].get("bban_length")
+        if not pos or not isinstance(n, int):
+            continue
+        cov = [False] * n
+        for k, v in pos.items():
+            if isinstance(v, list) and len(v) == 2 and all(isinstance(x, int) for x in v):
+                for j in range(max(v[0], 0), min(v[1], n)):
+                    cov[j] = True
+        gaps = [j for j, c in enumerate(cov) if not c]
+        r_cover.instance({"country": cc, "uncovered": gaps} if gaps else None)
+        if gaps != RESERVED.get(cc, []):
+            r_cover.finding(f"{cc}:cover", f"{cc}: BBAN position(s) {[g + 1 for g in gaps]} (1-based) belong to no component" +
+                            (f" (reserved positions are {[g + 1 for g in RESERVED[cc]]})" if cc in RESERVED else "") +
+                            "; no accessor returns them and generation fills them with '0'", None, witness={"country": cc, "positions": pos})
     # ------------------------------------------------------------------ R17-found: the lookup code finds listed banks again
     from .c12 import Harness
     r_found = report.rule("R17-found", floor=40, what="a bank entry is found again (bank, BIC) from a structure-conforming IBAN built around its bank code: quick - one entry per country, every all-zero / all-nine code and a seeded sample of 1500 keys; thorough - every key")
